@@ -1394,6 +1394,9 @@ class AdapterIndex:
                             continue
                         if other_matches == matches and s not in ambiguous:
                             ambiguous[s] = (adapter, other_adapter, k, matches)
+                        elif matches > other_matches:
+                            # This adapter is strictly better than the tied ones
+                            ambiguous.pop(s, None)
                     index[s] = (adapter, errors, matches)
                     lengths.add(len(s))
             else:
@@ -1407,6 +1410,9 @@ class AdapterIndex:
                                 continue
                             if other_matches == matches and s not in ambiguous:
                                 ambiguous[s] = (adapter, other_adapter, k, matches)
+                            elif matches > other_matches:
+                                # This adapter is strictly better than the tied ones
+                                ambiguous.pop(s, None)
                         index[s] = (adapter, errors, matches)
                 lengths.add(n)
 
